@@ -2,12 +2,13 @@ SPECIFICATION Spec
 CONSTANTS
   Methods = {"GET", "HEAD", "POST"}
   Versions = {"1.1"}
-  Inms = {"absent", "differ", "match", "star"}
+  Inms = {"absent", "match"}
   Statuses = {200, 204, 304, 404}
   HdrVals = {1}
   ClVals = {1, 3}
   ChunkIds = {0, 1, 2}
-  MaxBody = 3
+  MaxBody = 2
+  Prune = TRUE
   MaxHdr = 2
 CONSTRAINT StateBound
 VIEW View
